@@ -14,6 +14,7 @@ Functions:
 from __future__ import annotations
 
 import multiprocessing
+import os
 import pickle
 import sys
 from dataclasses import dataclass
@@ -40,8 +41,12 @@ def _pickle_load(file: Path) -> Any:
 
 
 def _pickle_save(file: Path, data: Any) -> None:
-    with file.open("wb") as fp:
+    # Write to a temporary sibling and rename it into place, so that an
+    # interrupted run never leaves a truncated file that a later run would load
+    tmp = file.with_name(f"{file.name}.{os.getpid()}.tmp")
+    with tmp.open("wb") as fp:
         pickle.dump(data, fp)
+    tmp.replace(file)
 
 
 @dataclass
